@@ -12,20 +12,23 @@ Pipeline (see docs/BUILDER_GUIDE.md):
      strings of four subtypes, depth 2, failing loads, registrations at any point) go the same way.
 Python only moves bytes: it renders inputs, runs processes and maps TLC's verdicts back to histories.
 """
+import hashlib
 import json
 import os
 import re
 import subprocess
+import threading
 import time
 from concurrent.futures import ThreadPoolExecutor
 
 from vlib import core
+from vlib import tlc as _tlc
 
 LEVEL = "model_checking"
 TITLE = "reload is deterministic: last good file plus defaults (conf_read / conf_replace_value)"
 
-QUICK_UNIVERSES = ["q1", "q2", "q3", "q4"]
-THOROUGH_UNIVERSES = ["q1", "q2", "q3", "q4", "t1", "t2", "t3"]
+QUICK_UNIVERSES = ["q1a", "q1b", "q1c", "q1d", "q2", "q3", "q4"]
+THOROUGH_UNIVERSES = QUICK_UNIVERSES + ["t0", "t1", "t2", "t3"]
 KIND_WORD = {"s": "string", "i": "inaddr", "l": "list", "o": "object"}
 NPAR = 16
 CONJUNCTS = ["C15_Completes", "C15_Values", "C15_Leftovers", "C15_FileNodes", "C15_Idempotent",
@@ -34,6 +37,11 @@ CONJUNCTS = ["C15_Completes", "C15_Values", "C15_Leftovers", "C15_FileNodes", "C
 
 # ---------------------------------------------------------------------------------------------
 # rendering (purely syntactic)
+def _tok(tok):
+    """string token as one word of a harness script line"""
+    return tok.replace("%", "%25").replace(" ", "%20")
+
+
 def _q(tok):
     """token "=text" -> quoted configuration string"""
     assert tok.startswith("="), tok
@@ -80,6 +88,7 @@ class Renderer:
         self.dir = os.path.join(scratch, "files")
         os.makedirs(self.dir, exist_ok=True)
         self.cache = {}
+        self.lock = threading.Lock()
         bad = os.path.join(self.dir, "bad-unterminated.conf")
         with open(bad, "w") as f:
             f.write('a "x"\nb {\n    a "y"\n')
@@ -88,10 +97,13 @@ class Renderer:
     def file_path(self, text):
         p = self.cache.get(text)
         if p is None:
-            p = os.path.join(self.dir, "f%d.conf" % len(self.cache))
-            with open(p, "w") as f:
-                f.write(text)
-            self.cache[text] = p
+            with self.lock:
+                p = self.cache.get(text)
+                if p is None:
+                    p = os.path.join(self.dir, "f-%s.conf" % hashlib.sha256(text.encode()).hexdigest()[:20])
+                    with open(p, "w") as f:
+                        f.write(text)
+                    self.cache[text] = p
         return p
 
     def lines(self, events):
@@ -102,12 +114,12 @@ class Renderer:
                 path = "/".join(ev.get("spell") or ev["p"])
                 k = ev["k"]
                 if k == "s":
-                    out.append("register string %s %s %s" % (path, ev["s"], ev["d"][0]))
+                    out.append("register string %s %s %s" % (path, ev["s"], _tok(ev["d"][0])))
                 elif k == "i":
-                    out.append("register inaddr %s %s %s" % (path, ev["d"][0], ev["d"][1]))
+                    out.append("register inaddr %s %s %s" % (path, _tok(ev["d"][0]), _tok(ev["d"][1])))
                 elif k == "l":
                     out.append("register %s %s %d%s" % (ev.get("via", "list"), path, len(ev["d"]),
-                                                       "".join(" " + x for x in ev["d"])))
+                                                       "".join(" " + _tok(x) for x in ev["d"])))
                 else:
                     out.append("register object %s" % path)
             elif op == "load":
@@ -161,99 +173,104 @@ def _env():
     return e
 
 
-def run_chunk(harness, header, scripts, trace_path, err_path, timeout):
-    """scripts: list of (id, lines).  Writes header + the harness's multi-mode output to trace_path."""
-    with open(trace_path, "w") as fo:
-        fo.write(header + "\n")
-    inp = []
-    for bid, lines in scripts:
-        inp.append('reset "id":%d' % bid)
-        inp.extend(lines)
-    data = ("\n".join(inp) + "\n").encode()
-    with open(trace_path, "ab") as fo, open(err_path, "wb") as fe:
-        try:
-            p = subprocess.run([harness, "-m"], input=data, stdout=fo, stderr=fe, env=_env(), timeout=timeout)
-        except subprocess.TimeoutExpired:
-            raise core.MachineryError("h_conf timed out on a chunk of %d histories" % len(scripts))
-    if p.returncode != 0:
-        with open(err_path, errors="replace") as f:
-            raise core.MachineryError("h_conf -m exited %d: %s" % (p.returncode, f.read()[-2000:]))
+_RE_BEGIN = re.compile(rb'^\{"e":"begin","n":(\d+),(?:"par":(\d+),)?')
 
 
-def run_single(harness, header, lines, trace_path, timeout=60):
-    """One history on a fresh process (exec); returns the sanitizer / stderr text."""
-    data = ("\n".join(lines) + "\n").encode()
+def write_trace(trace_path, names, raw_lines, chain=False):
+    """Header (names, kids) + the harness's lines.  kids[i] = numbers of the "begin" lines whose parent node's
+    "begin" line is i (1 = the root).  chain=True: single-process output, every begin follows the previous one.
+    Returns {begin line number: node id}."""
+    kids = [[] for _ in range(len(raw_lines) + 1)]
+    line_of = {0: 1}
+    ids = {}
+    prev = 1
+    for no, line in enumerate(raw_lines, 2):
+        m = _RE_BEGIN.match(line)
+        if not m:
+            continue
+        nid = int(m.group(1))
+        if chain:
+            kids[prev - 1].append(no)
+            prev = no
+        else:
+            par = int(m.group(2))
+            if par not in line_of:
+                raise core.MachineryError("trace: node %d has no parent line" % nid)
+            kids[line_of[par] - 1].append(no)
+            line_of[nid] = no
+        ids[no] = nid
+    with open(trace_path, "wb") as fo:
+        fo.write(json.dumps({"e": "Header", "names": names, "kids": kids}, separators=(",", ":")).encode() + b"\n")
+        for line in raw_lines:
+            fo.write(line if line.endswith(b"\n") else line + b"\n")
+    return ids
+
+
+def run_tree(harness, names, script, trace_path, timeout):
+    """script: 'node <id> <par> <depth> <cmd>' lines.  Runs h_conf -t; writes the trace file."""
     try:
-        p = subprocess.run([harness], input=data, stdout=subprocess.PIPE, stderr=subprocess.PIPE, env=_env(),
-                           timeout=timeout)
+        p = subprocess.run([harness, "-t"], input=("\n".join(script) + "\n").encode(), stdout=subprocess.PIPE,
+                           stderr=subprocess.PIPE, env=_env(), timeout=timeout)
+    except subprocess.TimeoutExpired:
+        raise core.MachineryError("h_conf -t timed out on %d nodes" % len(script))
+    if p.returncode != 0:
+        raise core.MachineryError("h_conf -t exited %d: %s" % (p.returncode, p.stderr.decode(errors="replace")[-2000:]))
+    return write_trace(trace_path, names, p.stdout.splitlines(True))
+
+
+def run_single(harness, names, lines, trace_path, timeout=60):
+    """One history on a fresh process (exec, no fork); returns the sanitizer / stderr text."""
+    try:
+        p = subprocess.run([harness], input=("\n".join(lines) + "\n").encode(), stdout=subprocess.PIPE,
+                           stderr=subprocess.PIPE, env=_env(), timeout=timeout)
     except subprocess.TimeoutExpired:
         raise core.MachineryError("h_conf timed out on a single history")
     if p.returncode == 3:
         raise core.MachineryError("h_conf rejected its script: " + p.stderr.decode(errors="replace")[-500:])
-    with open(trace_path, "wb") as fo:
-        fo.write((header + "\n").encode())
-        fo.write(b'{"e":"Reset","id":0}\n')
-        fo.write(p.stdout)
-        fo.write(('{"e":"exit","st":%d,"sig":%d}\n' % (p.returncode if p.returncode >= 0 else -1,
-                                                      -p.returncode if p.returncode < 0 else 0)).encode())
+    write_trace(trace_path, names, p.stdout.splitlines(True), chain=True)
     return p.stderr.decode(errors="replace")
 
 
 # ---------------------------------------------------------------------------------------------
 # TLC as the oracle
 _RE_REPORT = re.compile(r'^<<"@@([VD])", (\d+), \{(.*)\}>>$')
-_RE_END = re.compile(r'^<<"@@END", (\d+)>>$')
 
 
-def validate(ctx, trace_path, strict=False, timeout=900):
-    """Run ConfTrace over one trace file.  Returns (failures, drifts, result): lists of (line, [names])."""
-    r = ctx.tlc("ConfTrace", "ConfTrace.cfg" if strict else "ConfTrace_all.cfg", workers=1, timeout=timeout,
-                env={"TRACE": trace_path}, heap="3g", capture_printed=False)
-    fails, drifts, end = [], [], None
+def validate(ctx, trace_path, n_begin, strict=False, timeout=900):
+    """Run ConfTrace over one trace file.  Returns (failures, drifts, result): lists of (begin line, [names])."""
+    # short traces: the JVM's start-up (JIT) dominates, C1 only halves it; long ones want C2
+    jopts = ["-XX:TieredStopAtLevel=1"] if (n_begin or 0) < 8000 else []
+    r = _tlc.run("ConfTrace", "ConfTrace.cfg" if strict else "ConfTrace_all.cfg", workers=1, timeout=timeout,
+                 env={"TRACE": trace_path}, heap="2g", capture_printed=False,
+                 java_opts=jopts + ["-XX:ParallelGCThreads=2"])
+    agg = ctx.cov.setdefault("trace_validation", {"tlc_runs": 0, "steps_judged": 0, "wall_s": 0.0})
+    agg["tlc_runs"] += 1
+    agg["steps_judged"] += max(r.distinct - 1, 0)
+    agg["wall_s"] = round(agg["wall_s"] + r.wall_s, 1)
+    fails, drifts, unexpected = [], [], 0
     for line in r.output.splitlines():
         m = _RE_REPORT.match(line)
         if m:
             names = [x.strip().strip('"') for x in m.group(3).split(",") if x.strip()]
             (fails if m.group(1) == "V" else drifts).append((int(m.group(2)), names))
-            continue
-        m = _RE_END.match(line)
-        if m:
-            end = int(m.group(1))
+        elif line.startswith('<<"@@U"'):
+            unexpected += 1
+    if unexpected:
+        raise core.MachineryError("%d configuration files that were meant to be good did not load (see C14/C16): "
+                                  "C15 cannot be judged on %s" % (unexpected, trace_path))
     if not strict:
         if r.violated:
             raise core.MachineryError("ConfTrace failed unexpectedly (%s): %s" % (r.violated, r.violation_text[:1500]))
-        with open(trace_path, "rb") as f:
-            nlines = sum(1 for _ in f)
-        if end != nlines + 1:
-            raise core.MachineryError("ConfTrace did not consume %s completely (end=%r, lines=%d)\n%s"
-                                      % (trace_path, end, nlines, r.output[-1500:]))
+        if r.distinct != n_begin + 1:
+            raise core.MachineryError("ConfTrace judged %d of %d steps of %s\n%s"
+                                      % (r.distinct - 1, n_begin, trace_path, r.output[-1500:]))
     return fails, drifts, r
-
-
-def history_index(trace_path):
-    """line number (1-based) of every Reset line -> id"""
-    starts = []
-    with open(trace_path, "rb") as f:
-        for no, line in enumerate(f, 1):
-            if line.startswith(b'{"e":"Reset"'):
-                starts.append((no, json.loads(line).get("id")))
-    return starts
-
-
-def locate(starts, lineno):
-    lo, hi = 0, len(starts) - 1
-    while lo < hi:
-        mid = (lo + hi + 1) // 2
-        if starts[mid][0] <= lineno:
-            lo = mid
-        else:
-            hi = mid - 1
-    return starts[lo]
 
 
 # ---------------------------------------------------------------------------------------------
 class Campaign:
-    """Replays a list of histories on the real code and has TLC judge the traces."""
+    """Replays a set of histories on the real code (as a prefix tree: every edge once) and has TLC judge
+    the traces."""
 
     def __init__(self, ctx, label):
         self.ctx = ctx
@@ -263,76 +280,73 @@ class Campaign:
         self.dir = os.path.join(ctx.scratch, "traces-" + label)
         os.makedirs(self.dir, exist_ok=True)
         self.serial = 0
+        self.steps = 0
 
-    def header(self, behaviours):
-        return json.dumps({"e": "Header", "names": names_of(behaviours)}, separators=(",", ":"))
-
-    def replay_all(self, behaviours, per_file=2500):
-        """-> list of (trace_path, ids); histories are numbered by their index in `behaviours`"""
+    def run(self, behaviours, pieces=None):
+        """-> (fails, drifts): lists of ([names], events of the history up to the offending step)"""
         ctx = self.ctx
-        header = self.header(behaviours)
+        names = names_of(behaviours)
+        keyed = sorted(([json.dumps(ev, sort_keys=True, separators=(",", ":")) for ev in evs], evs)
+                       for evs in behaviours)
+        pieces = pieces or max(1, min(NPAR, len(keyed) // 5000))
+        size = -(-len(keyed) // pieces)
         jobs = []
-        for lo in range(0, len(behaviours), per_file):
-            ids = list(range(lo, min(lo + per_file, len(behaviours))))
+        for lo in range(0, len(keyed), size):
             self.serial += 1
-            tp = os.path.join(self.dir, "t%05d.ndjson" % self.serial)
-            jobs.append((tp, tp + ".err", [(i, self.render.lines(behaviours[i])) for i in ids]))
+            jobs.append((os.path.join(self.dir, "t%05d.ndjson" % self.serial), keyed[lo:lo + size]))
+
+        def one(job):
+            tp, part = job
+            nodes = {}                      # id -> (parent id, event)
+            script, stack, nid = [], [], 0
+            for keys, evs in part:
+                common = 0
+                while common < len(stack) and common < len(keys) and stack[common][0] == keys[common]:
+                    common += 1
+                del stack[common:]
+                for j in range(common, len(keys)):
+                    nid += 1
+                    par = stack[-1][1] if stack else 0
+                    nodes[nid] = (par, evs[j])
+                    script.append("node %d %d %d %s" % (nid, par, len(stack) + 1, self.render.lines([evs[j]])[0]))
+                    stack.append((keys[j], nid))
+            ids = run_tree(self.harness, names, script, tp, 900)
+            f, d, r = validate(ctx, tp, len(ids))
+
+            def history(lineno):
+                evs, n = [], ids[lineno]
+                while n:
+                    evs.append(nodes[n][1])
+                    n = nodes[n][0]
+                return evs[::-1]
+            return len(ids), [(nm, history(ln)) for ln, nm in f[:200]], [(nm, history(ln)) for ln, nm in d[:20]], len(f), len(d)
+
+        fails, drifts, nf, nd = [], [], 0, 0
         with ThreadPoolExecutor(NPAR) as ex:
-            futs = [ex.submit(run_chunk, self.harness, header, sc, tp, ep, 600) for tp, ep, sc in jobs]
-            for f in futs:
-                f.result()
-        return header, [tp for tp, _, _ in jobs]
-
-    def judge(self, trace_paths):
-        """-> failures {id: (conjuncts, lineno, path)}, drifts {id: names}, steps"""
-        ctx = self.ctx
-        fails, drifts = {}, {}
-        lines = [0]
-
-        def one(tp):
-            f, d, r = validate(ctx, tp)
-            starts = history_index(tp)
-            return tp, f, d, starts, r.distinct
-
-        with ThreadPoolExecutor(NPAR) as ex:
-            for tp, f, d, starts, distinct in ex.map(one, trace_paths):
-                lines[0] += distinct
-                for lineno, names in f:
-                    _, bid = locate(starts, lineno)
-                    if bid not in fails:
-                        fails[bid] = (names, lineno, tp)
-                for lineno, names in d:
-                    _, bid = locate(starts, lineno)
-                    drifts.setdefault(bid, names)
-        return fails, drifts, lines[0]
+            for steps, f, d, cf, cd in ex.map(one, jobs):
+                self.steps += steps
+                fails += f
+                drifts += d
+                nf += cf
+                nd += cd
+        return fails, drifts, nf, nd
 
     # -- confirmation, minimisation, reporting ---------------------------------------------------
     def confirm(self, events):
-        """Fresh process, strict validation -> (conjunct or None, stderr text)."""
+        """Fresh process (exec, no fork), strict validation -> (conjunct or None, stderr text)."""
         self.serial += 1
         tp = os.path.join(self.dir, "single%05d.ndjson" % self.serial)
-        err = run_single(self.harness, self.header([events]), self.render.lines(events), tp)
-        _, _, r = validate(self.ctx, tp, strict=True)
+        err = run_single(self.harness, names_of([events]), self.render.lines(events), tp)
+        _, _, r = validate(self.ctx, tp, None, strict=True)
         if r.violated is None:
             return None, err
         if r.violated not in CONJUNCTS:
             raise core.MachineryError("ConfTrace: unexpected failure %s\n%s" % (r.violated, r.violation_text[:1500]))
         return r.violated, err
 
-    def still_fails(self, variants, conjunct):
-        """variants: list of event lists -> index of the first one whose trace fails `conjunct`, else None"""
-        if not variants:
-            return None
-        header, tps = self.replay_all(variants, per_file=100000)
-        fails, _, _ = self.judge(tps)
-        for i in range(len(variants)):
-            if i in fails and conjunct in fails[i][0]:
-                return i
-        return None
-
     def minimise(self, events, conjunct, rounds=12):
         def valid(evs):
-            regs = set()
+            regs, seen = set(), set()
             for ev in evs:
                 if ev["op"] == "reg":
                     if len(ev["p"]) > 1 and tuple(ev["p"][:-1]) not in regs:
@@ -354,28 +368,30 @@ class Campaign:
                 for e in ev["f"]:
                     keep = [x for x in ev["f"] if not (x is e or (e["k"] == "o" and x["p"][:len(e["p"])] == e["p"]))]
                     variants.append(cur[:i] + [dict(ev, f=keep)] + cur[i + 1:])
-            j = self.still_fails(variants, conjunct)
-            if j is None:
+            if not variants:
                 break
-            cur = variants[j]
+            fails, _, _, _ = self.run(variants, pieces=1)
+            # a variant fails if the *last* step of the (possibly shorter) failing history still breaks the conjunct
+            cand = [evs for nm, evs in fails if conjunct in nm]
+            if not cand:
+                break
+            cur = min(cand, key=lambda evs: (len(evs), len(json.dumps(evs))))
         return cur
 
-    def report(self, fails, behaviours, limit=4):
+    def report(self, fails, limit=3):
         """Confirm (fresh process, strict TLC run), minimise and report distinct failures."""
         ctx = self.ctx
         seen = set()
         groups = {}
-        for bid, (names, lineno, tp) in sorted(fails.items()):
-            groups.setdefault(tuple(sorted(names)), []).append(bid)
-        ctx.cov.setdefault("failing_histories", 0)
-        ctx.cov["failing_histories"] += len(fails)
-        for names, bids in sorted(groups.items()):
-            for bid in sorted(bids, key=lambda b: len(behaviours[b]))[:limit]:
-                events = behaviours[bid]
+        for names, events in fails:
+            groups.setdefault(tuple(sorted(names)), []).append(events)
+        for names, hists in sorted(groups.items()):
+            done = 0
+            for events in sorted(hists, key=lambda e: (len(e), len(json.dumps(e))))[:limit]:
                 conj, err = self.confirm(events)
                 if conj is None:
-                    ctx.note("history %d failed %s in the batch run but not on a fresh process: not reported"
-                             % (bid, ",".join(names)))
+                    ctx.note("a history failed %s in the batch run but not on a fresh process: not reported: %s"
+                             % (",".join(names), short(events)[:300]))
                     continue
                 small = self.minimise(events, conj)
                 conj2, err2 = self.confirm(small)
@@ -383,7 +399,8 @@ class Campaign:
                     small, err2 = events, err
                 sig = "%s | %s" % (conj, short(small))
                 if sig in seen:
-                    continue
+                    done += 1
+                    break
                 seen.add(sig)
                 san = ""
                 m = re.search(r"ERROR: AddressSanitizer: [^\n]*", err2)
@@ -549,10 +566,7 @@ def run(ctx):
 
     # 1+2+3: exhaustive universes.  TLC runs of different universes go in parallel.
     def gen(uni):
-        sample = None
-        if thorough and uni in ("t1", "t2", "t3"):
-            sample = THOROUGH_SAMPLE.get(uni)
-        return uni, generate(ctx, uni, sample)
+        return uni, generate(ctx, uni)
 
     with ThreadPoolExecutor(4) as ex:
         gens = list(ex.map(gen, universes))
@@ -560,59 +574,42 @@ def run(ctx):
     ctx.note("model: %d distinct states, %d transitions over %d universes (%.0fs)"
              % (ctx.cov["states"], ctx.cov["transitions"], len(universes), time.time() - t0))
 
-    total_hist = total_steps = 0
+    everything = []
     for uni, (r, behaviours) in gens:
-        t1 = time.time()
-        camp = Campaign(ctx, uni)
-        header, tps = camp.replay_all(behaviours)
-        t2 = time.time()
-        fails, drifts, consumed = camp.judge(tps)
-        steps = sum(len(b) for b in behaviours)
-        total_hist += len(behaviours)
-        total_steps += steps
         nontrivial |= nontrivial_cases(behaviours)
         ctx.cov["universes"][uni] = {"distinct_states": r.distinct, "transitions": r.generated,
-                                     "histories_replayed": len(behaviours), "steps": steps,
-                                     "failing": len(fails), "drifting": len(drifts),
-                                     "replay_s": round(t2 - t1, 1), "validate_s": round(time.time() - t2, 1)}
-        ctx.note("%s: %d states / %d transitions; %d histories (%d steps) replayed in %.1fs, validated in %.1fs; "
-                 "%d fail, %d drift" % (uni, r.distinct, r.generated, len(behaviours), steps, t2 - t1,
-                                        time.time() - t2, len(fails), len(drifts)))
-        if len(ctx.cov["samples"]) < 4 and behaviours:
-            ctx.sample(short(behaviours[len(behaviours) // 2]))
-        for bid, names in list(sorted(drifts.items()))[:3]:
-            ctx.drift("%s: B predicts a different %s for: %s" % (uni, "/".join(names), short(behaviours[bid])))
-        if fails:
-            camp.report(fails, behaviours)
+                                     "histories_replayed": len(behaviours), "tlc_wall_s": round(r.wall_s, 1)}
+        ctx.note("%s: %d states / %d transitions model-checked, %d histories emitted"
+                 % (uni, r.distinct, r.generated, len(behaviours)))
+        if behaviours:
+            ctx.sample(short(behaviours[len(behaviours) // 2]), limit=4)
+        everything += behaviours
 
     # 4: random long histories
     n_rand, length = (6000, 30) if thorough else (400, 16)
     rnd = [random_history(ctx.rng, ctx.rng.randrange(length // 2, length + 1)) for _ in range(n_rand)]
-    t1 = time.time()
-    camp = Campaign(ctx, "random")
-    header, tps = camp.replay_all(rnd, per_file=500)
-    t2 = time.time()
-    fails, drifts, consumed = camp.judge(tps)
-    steps = sum(len(b) for b in rnd)
-    total_hist += len(rnd)
-    total_steps += steps
     nontrivial |= nontrivial_cases(rnd)
-    ctx.cov["random"] = {"histories": len(rnd), "steps": steps, "failing": len(fails), "drifting": len(drifts),
-                         "replay_s": round(t2 - t1, 1), "validate_s": round(time.time() - t2, 1)}
-    ctx.note("random: %d histories (%d steps) replayed in %.1fs, validated in %.1fs; %d fail, %d drift"
-             % (len(rnd), steps, t2 - t1, time.time() - t2, len(fails), len(drifts)))
     ctx.sample(short(rnd[0])[:600])
-    for bid, names in list(sorted(drifts.items()))[:3]:
-        ctx.drift("random: B predicts a different %s for: %s" % ("/".join(names), short(rnd[bid])[:800]))
+    everything += rnd
+
+    t1 = time.time()
+    camp = Campaign(ctx, "all")
+    fails, drifts, nf, nd = camp.run(everything)
+    ctx.cov["replay"] = {"histories_from_model": len(everything) - len(rnd), "random_histories": len(rnd),
+                         "random_steps": sum(len(b) for b in rnd), "steps_executed": camp.steps,
+                         "failing_steps": nf, "drifting_steps": nd,
+                         "replay_and_validate_s": round(time.time() - t1, 1)}
+    ctx.note("%d histories (%d from the model, %d random) replayed as prefix trees: %d steps executed on the real "
+             "code and judged by TLC in %.1fs; %d fail, %d drift"
+             % (len(everything), len(everything) - len(rnd), len(rnd), camp.steps, time.time() - t1, nf, nd))
+    for names, events in drifts[:3]:
+        ctx.drift("B predicts a different %s for: %s" % ("/".join(names), short(events)[:800]))
     if fails:
-        camp.report(fails, rnd)
+        camp.report(fails)
 
-    ctx.cov["traces_validated_against_impl"] = total_hist
-    ctx.cov["evaluations"] = total_steps
+    ctx.cov["traces_validated_against_impl"] = len(everything)
+    ctx.cov["evaluations"] = camp.steps
     ctx.cov["distinct_nontrivial"] = len(nontrivial)
-
-
-THOROUGH_SAMPLE = {"t1": None, "t2": None, "t3": None}
 
 
 def replay(ctx, body):
